@@ -62,27 +62,17 @@ class LoopModel:
 def install_shape_rules(ev: Evaluator):
     """Output length of the distance callees == length of their first argument (checked separately by
     the shape rule C01-R5 on the bodies of both distance functions)."""
-    base = ev.length_of
-
-    def length_of(v):
-        if isinstance(v, Rat):
-            a = single_atom(v)
-            if a is not None and a.kind == "fn" and (a.name == DIST_SLOT or a.name in (
-                    "call:linear_fit.shortest_distance_points", "call:linear_fit.perpendicular_distance_points")):
-                first = a.args[0]
-                fa = single_atom(first)
-                if fa is not None and fa.name == "vec":
-                    return base(fa.args[0])
-                return base(first)
-        return base(v)
-    ev.length_of = length_of
+    ev.shape_table[DIST_SLOT] = 0
+    ev.shape_table["call:linear_fit.shortest_distance_points"] = 0
+    ev.shape_table["call:linear_fit.perpendicular_distance_points"] = 0
 
 
 def build(rc: RuleCtx, qual: str, bind: Optional[Dict[str, Any]] = None) -> LoopModel:
     fi = rc.func(qual)
     ev = rc.new_eval()
     install_shape_rules(ev)
-    ev.no_inline |= set(ORDER_FUNCS) | {"rdp.compute_cost_coef", "linear_fit.linear_fit_points"}
+    ev.no_inline |= set(ORDER_FUNCS) | {"rdp.compute_cost_coef", "linear_fit.linear_fit_points", "linear_fit.smape_points",
+                                        "linear_fit.linear_r2_points"}
     pts = ev.point("points", True)
     ev.len_map = {"points": sym("n")}
     env: Dict[str, Any] = {"points": pts}
